@@ -338,7 +338,8 @@ def run_crdt(case, obl, safe=False):
 
     def tags_of(c):
         d = c.to_dict().get("entries", {})
-        return {e: sorted(map(tuple, t)) for e, t in d.items() if t}
+        items = d.items() if isinstance(d, dict) else d          # dict keyed by element, or list of [element, tags] pairs
+        return {e: sorted(map(tuple, t)) for e, t in items if t}
 
     def check_equal(i, j, what):
         a, b = reps[i], reps[j]
